@@ -320,8 +320,8 @@ def Rec.textPieceAsFound (r : Rec) : Bytes :=
   if r.text.length > 0 then r.text ++ [32] ++ (if r.trunc then truncMarker else []) else []
 def Rec.filePiece (r : Rec) : Bytes := match r.file with | some f => filePrefix ++ f ++ [58] ++ r.line | none => []
 
-/-- every `snprintf(buff, sizeof(buff), …)` piece fits its 1 KiB buffer (otherwise the code
-appends `len` bytes out of a 1024-byte array: outside the model, rejected) -/
+/-- every `snprintf(buff, sizeof(buff), …)` piece fits its 1 KiB buffer — what the code AS FOUND needed (it appended
+`len` bytes out of a 1024-byte array: `pieceAsFound`); after patches/C09-08 no longer a hypothesis of anything (`piece`) -/
 def Rec.piecesFit (r : Rec) : Bool :=
   r.head.length < pieceLimit && r.funcPiece.length < pieceLimit && r.filePiece.length < pieceLimit
 
@@ -594,6 +594,142 @@ def WAns.soft : WAns → Bool
   | .acc k => k != 0
   | .eintr => true
   | .err => false
+
+/-! ### (g') the EAGAIN branch of `AsyncStdoutSink::flush()`: `poll(POLLOUT, -1)`, its answer an oracle
+
+On a non-blocking stdout that is full `write` fails with EAGAIN; the code then waits in
+`poll(&pfd, 1, -1)` and goes round the loop again WHATEVER `poll` returned: 1 (writable, or
+POLLERR/POLLHUP: the next `write` reports it), −1/EINTR (a handled signal landed on the back-end
+thread — `poll` is never restarted, SA_RESTART or not), −1/another errno (ENOMEM, EINVAL), 0 (cannot
+happen with an infinite timeout; treated the same).  Every `write` on fd 1 is therefore answered by
+a `SAns`: the `WAns` cases plus `again p` = EAGAIN followed by one `poll` answered `p`. -/
+
+inductive PAns where
+  | ready       -- 1: revents set
+  | eintr       -- −1 / EINTR
+  | err         -- −1 / ENOMEM, EINVAL, EFAULT
+  | timeout     -- 0
+  deriving Repr, DecidableEq
+
+inductive SAns where
+  | acc (k : Nat)
+  | eintr
+  | again (p : PAns)     -- −1 / EAGAIN (EWOULDBLOCK), then `poll` answered `p`
+  | err                  -- −1 / EPIPE, EBADF, EIO, …
+  deriving Repr, DecidableEq
+
+/-- the loop of `AsyncStdoutSink::flush()` as coded: (bytes that reached fd 1, bytes dropped by `cache_.clear()`) -/
+def stdoutLoop : List SAns → Bytes → Bytes × Bytes
+  | [], data => (data, [])
+  | .acc k :: os, data =>
+    if data.isEmpty then ([], [])
+    else if k = 0 then ([], data)
+    else let r := stdoutLoop os (data.drop k); (data.take k ++ r.1, r.2)
+  | .eintr :: os, data => if data.isEmpty then ([], []) else stdoutLoop os data
+  | .again _ :: os, data => if data.isEmpty then ([], []) else stdoutLoop os data     -- result of poll() not looked at
+  | .err :: _, data => ([], data)
+
+/-- the variant that gives up when `poll` fails (the seeded change C09-6: `if (::poll(…) < 0) break;`) — kept for the
+counterexample theorem -/
+def stdoutLoopPollBreaks : List SAns → Bytes → Bytes × Bytes
+  | [], data => (data, [])
+  | .acc k :: os, data =>
+    if data.isEmpty then ([], [])
+    else if k = 0 then ([], data)
+    else let r := stdoutLoopPollBreaks os (data.drop k); (data.take k ++ r.1, r.2)
+  | .eintr :: os, data => if data.isEmpty then ([], []) else stdoutLoopPollBreaks os data
+  | .again p :: os, data =>
+    if data.isEmpty then ([], [])
+    else if p = .eintr || p = .err then ([], data)
+    else stdoutLoopPollBreaks os data
+  | .err :: _, data => ([], data)
+
+/-- forgetting the `poll` answer: the loop of the file sink -/
+def SAns.toW : SAns → WAns
+  | .acc k => .acc k
+  | .eintr => .eintr
+  | .again _ => .eintr
+  | .err => .err
+
+/-- an answer that does not end the loop with bytes left -/
+def SAns.soft : SAns → Bool
+  | .acc k => k != 0
+  | .eintr => true
+  | .again _ => true
+  | .err => false
+
+def stdoutFlushP (os : List SAns) (cache : Bytes) : Bytes := (stdoutLoop os cache).1
+
+def stdoutBatchP (b : List Bytes × List SAns) : Bytes :=
+  if b.1.isEmpty then [] else stdoutFlushP b.2 b.1.flatten
+
+/-- everything that reached fd 1 over a sequence of back-end batches, every `write` and `poll` answered by the oracle -/
+def stdoutRunP (bs : List (List Bytes × List SAns)) : Bytes := (bs.map stdoutBatchP).flatten
+
+/-- replace every `poll` answer -/
+def SAns.setPoll (f : PAns → PAns) : SAns → SAns
+  | .again p => .again (f p)
+  | a => a
+
+/-! ### (e'') the 1 KiB pieces of `onLogBackEnd`: `snprintf(buff, sizeof(buff), …)` then `append`
+
+`snprintf` stores at most `cap − 1` bytes and a NUL and returns the length the WHOLE text would have.
+The code as found appended `ret` bytes of `buff` whatever `ret` was; after patches/C09-08 a piece that
+does not fit the stack buffer is formatted straight into the cache (`vsnprintf` into the grown vector). -/
+
+/-- contents of `buff` (as far as defined) after `snprintf(buff, cap, "%s…", s)`, and its return value -/
+def snprintfInto (cap : Nat) (s : Bytes) : Bytes × Nat :=
+  (if cap = 0 then [] else s.take (cap - 1) ++ [0], s.length)
+
+/-- as found: `append(buff, ret)` reads `buff[0 .. ret)`; `none` = the read leaves the `cap`-byte array -/
+def pieceAsFound (cap : Nat) (s : Bytes) : Option Bytes :=
+  let r := snprintfInto cap s
+  if r.2 ≤ cap then some (r.1.take r.2) else none
+
+/-- after patches/C09-08: the stack buffer when the piece fits, otherwise formatted into the cache itself
+(`resize(old + ret + 1)`, `vsnprintf(…, ret + 1, …)`, `pop_back()` the NUL) -/
+def piece (cap : Nat) (s : Bytes) : Bytes :=
+  let r := snprintfInto cap s
+  if r.2 < cap then r.1.take r.2
+  else (snprintfInto (r.2 + 1) s).1.take r.2
+
+/-- `AsyncSink::onLogBackEnd` piece by piece through `piece pieceLimit` (colour off) -/
+def renderPieces (r : Rec) : Bytes :=
+  piece pieceLimit r.head ++ (match r.func with | some _ => piece pieceLimit r.funcPiece | none => [])
+    ++ r.textPiece ++ (match r.file with | some _ => piece pieceLimit r.filePiece | none => []) ++ [10]
+
+/-! ### (f''') reconfiguration of an enabled file sink: `setFilePath` / `setFilePrefix` / `setFileSyncEnable`
+
+All three end in `CHECK_CLOSE_RESET_FD(fd_)` — also when the new value EQUALS the old one: the next
+`flush()` opens a new file.  `cache_` is not touched: a tail retained after a write error goes to the NEW
+file.  `setFileMaxSize` only stores the limit. -/
+
+def reopenK (s : FileSt) : FileSt :=
+  match s.cur with
+  | some d => { s with closed := s.closed ++ [d], cur := none }
+  | none => s
+
+def reopenLen (s : FileLen) : FileLen :=
+  match s.cur with
+  | some d => { s with closed := s.closed ++ [d], cur := none }
+  | none => s
+
+/-- a history of an enabled file sink: back-end batches (with the kernel's answers), reconfigurations, and changes of the limit -/
+inductive FOp where
+  | batch (recs : List Bytes) (o : FOracle)
+  | reopen
+  | setMax (m : Nat)
+
+def fileStepR (st : Nat × FileSt) : FOp → Nat × FileSt
+  | .batch recs o => (st.1, fileBatchK st.1 st.2 (recs, o))
+  | .reopen => (st.1, reopenK st.2)
+  | .setMax m => (m, st.2)
+
+def fileRunR (max : Nat) (ops : List FOp) : Nat × FileSt := ops.foldl fileStepR (max, {})
+
+def FOp.recs : FOp → List Bytes
+  | .batch recs _ => recs
+  | _ => []
 
 /-- the whole back end of an AsyncFileSink over the chunks the pipe delivers -/
 def backEnd (H : Nat) (tl : Bytes → Nat) (rend : Bytes × Bytes → Bytes) (max : Nat)
